@@ -270,13 +270,13 @@ mutual
     cases i with
     | marker => simp [defItem]
     | compOf r => simp [defItem]
-    | group g => simp only [defItem]; rw [defDescs_congr n mn g]
+    | group g => simp only [defItem]; rw [defDescs_congr n mn c g]
     | desc d => simp only [defItem]; rw [defDesc_congr n mn c d]
-  theorem defDescs_congr (n : Bool) (mn : String) (g : List Desc) :
-      defDescs sk' n mn g = defDescs sk n mn g := by
+  theorem defDescs_congr (n : Bool) (mn : String) (c : Bool) (g : List Desc) :
+      defDescs sk' n mn c g = defDescs sk n mn c g := by
     cases g with
     | nil => simp [defDescs]
-    | cons d t => simp only [defDescs]; rw [defDesc_congr n mn false d, defDescs_congr n mn t]
+    | cons d t => simp only [defDescs]; rw [defDesc_congr n mn c d, defDescs_congr n mn c t]
 end
 
 theorem locDesc_congr (n : Bool) (mn mt : String) (ext : Bool) (d : Desc) :
